@@ -43,6 +43,8 @@ KINDS = [
     ("gemini-doc", "gemini", b"/big.txt"), ("gemini-menu", "gemini", b"/a"), ("gemini-error", "gemini", b"/nope"),
     ("spartan-doc", "spartan", b"/f.txt"), ("spartan-menu", "spartan", b"/"), ("spartan-error", "spartan", b"/nope"),
     ("sgopher-menu", "sgopher", b"/gm"), ("tal-doc", "gopherp", b"/t.html.tal"), ("html-doc", "http", b"/h.html"), ("url-redirect", "gopher", b"URL:http://example.com/"),
+    ("zip-member-gemini", "gemini", b"/z.zip/sub/g.txt"), ("zip-member-spartan", "spartan", b"/z.zip/f.txt"), ("zip-member-http", "http", b"/z.zip/sub/g.txt"),
+    ("zip-member-plus", "gopherp", b"/z.zip/f.txt"), ("mbox-message-gemini", "gemini", b"/m.mbox|/MBOX-MESSAGE/1"), ("big-spartan", "spartan", b"/big.txt"),
     ("gz-doc", "http", b"/c.txt.gz"), ("script", "gopher", b"/s.sh"), ("pyg", "gemini", b"/p.pyg"), ("icon", "http", b"/PYGOPHERD-HTTPPROTO-ICONS/text.gif"),
 ]
 
@@ -71,12 +73,12 @@ def _world():
     return _w
 
 
-def _probe(kind, proto, sel, k, errname):
+def _probe(kind, proto, sel, k, errname, once=False):
     w = _world()
     data, tls = rig.request(proto, sel)
     gc.collect()
     before = _fds()
-    r = w.serve(data, tls, fail_at=k, fail_exc=ERRORS[errname])
+    r = w.serve(data, tls, fail_at=k, fail_exc=ERRORS[errname], fail_once=once)
     # drop the harness's own references to the request's objects (the recorded
     # protocol object, exception tracebacks) before looking for leaks
     rig.PM.last = None
@@ -99,7 +101,8 @@ def _probe(kind, proto, sel, k, errname):
                 classes.append((m.group(1), m.group(2)))
         if not any(c == own and a == rig.CLIENT_ADDR[0] for a, c in classes):
             bad.append(("not-logged", "no log record with the client address and class %s; records: %r" % (own, exc_records[:4])))
-        others = [c for a, c in classes if c not in (own, "FileNotFound")]
+        is_error_kind = kind.endswith(("-error", "-404"))
+        others = [c for a, c in classes if c != own and not (c == "FileNotFound" and is_error_kind)]
         if others:
             bad.append(("other-class", "failure logged as %r instead of %s: %r" % (sorted(set(others)), own, exc_records[:4])))
     leaked = {fd: p for fd, p in after.items() if fd not in before}
@@ -120,13 +123,17 @@ def _shard(shard, seed, tier):
         part.sample({"kind": kind, "request": data, "writes_in_clean_run": W}, limit=2)
         for k in range(1, W + 2):
             for errname in ERRORS:
-                r, bad = _probe(kind, proto, sel, k, errname)
-                part.evaluations += 1
-                part.transitions += r.failed_writes + len(r.writes)
-                part.state(kind, k, errname)
-                part.outcome(kind, errname, tuple(b[0] for b in bad), min(r.failed_writes, 3))
-                for cls, det in bad:
-                    part.violation("%s|write=%d/%d|%s|%s" % (kind, k, W, errname, cls), det, {"kind": kind, "proto": proto, "sel": sel, "k": k, "err": errname})
+                for once in (False, True):
+                    # once=False: the connection is gone (the k-th and every later write fail);
+                    # once=True: a transient failure (only the k-th write fails)
+                    r, bad = _probe(kind, proto, sel, k, errname, once)
+                    part.evaluations += 1
+                    part.transitions += r.failed_writes + len(r.writes)
+                    part.state(kind, k, errname, once)
+                    part.outcome(kind, errname, tuple(b[0] for b in bad), min(r.failed_writes, 3), once)
+                    for cls, det in bad:
+                        part.violation("%s|write=%d/%d|%s|%s|%s" % (kind, k, W, errname, "transient" if once else "gone", cls), det,
+                                       {"kind": kind, "proto": proto, "sel": sel, "k": k, "err": errname, "once": once})
     global _w
     if _w is not None:
         _w.destroy()
@@ -137,7 +144,7 @@ def _shard(shard, seed, tier):
 def replay(case):
     global _w
     try:
-        r, bad = _probe(case["kind"], case["proto"], case["sel"], case["k"], case["err"])
+        r, bad = _probe(case["kind"], case["proto"], case["sel"], case["k"], case["err"], case.get("once", False))
     finally:
         if _w is not None:
             _w.destroy()
